@@ -2,7 +2,8 @@
 (* C07: metadata exchange over one link (Output.get_info, Input.exchange_   *)
 (* info, Info.accepts, masks_compatible).  Fields take abstract values:     *)
 (*   time  "none" | "t"                                                     *)
-(*   grid  "none" | "g" | "g2" (same geometry, other layout) | "h" (other   *)
+(*   grid  "none" | "g" | "g2" | "g3" | "g4" (same geometry, other layouts:  *)
+(*         axes order reversed / x stored decreasing / y stored decreasing) | "h" (other *)
 (*         geometry) | "gc" (the node coordinates of g in another           *)
 (*         coordinate reference system) | "nogrid"                          *)
 (*   units additionally "ms", "kms", "s2": products with seconds, as the    *)
@@ -18,13 +19,13 @@
 EXTENDS FinamBase, TLC
 
 Info(t, g, u, m, f) == [time |-> t, grid |-> g, units |-> u, mask |-> m, foo |-> f]
-GridOK(i) == (i.mask \in {"M", "N", "E"}) => i.grid \in {"g", "g2", "h", "gc"}     \* a fixed mask presupposes a structured grid
-PInfos == {i \in {Info(t, g, u, m, f) : t \in {"none", "t"}, g \in {"none", "g", "g2", "h", "gc", "nogrid"},
+GridOK(i) == (i.mask \in {"M", "N", "E"}) => i.grid \in {"g", "g2", "g3", "g4", "h", "gc"}     \* a fixed mask presupposes a structured grid
+PInfos == {i \in {Info(t, g, u, m, f) : t \in {"none", "t"}, g \in {"none", "g", "g2", "g3", "h", "gc", "nogrid"},
                     u \in {"none", "m", "km", "s"}, m \in {"flex", "nomask", "M", "N", "E", "E0"}, f \in {"absent", "none", "v"}} : GridOK(i)}
-CInfos == {i \in {Info(t, g, u, m, f) : t \in {"none", "t"}, g \in {"none", "g", "g2", "h", "gc", "nogrid"},
+CInfos == {i \in {Info(t, g, u, m, f) : t \in {"none", "t"}, g \in {"none", "g", "g2", "g4", "h", "gc", "nogrid"},
                     u \in {"none", "m", "km", "s"}, m \in {"flex", "nomask", "M", "N", "E", "E0"}, f \in {"absent", "none", "v", "w"}} : GridOK(i)}
 
-SameLocations(a, b) == a = b \/ {a, b} = {"g", "g2"}
+SameLocations(a, b) == a = b \/ {a, b} \subseteq {"g", "g2", "g3", "g4"}
 Dim(u) == CASE u = "s" -> "time" [] u \in {"ms", "kms"} -> "length*time" [] u = "s2" -> "time2" [] OTHER -> "length"
 TimesS(u) == CASE u = "m" -> "ms" [] u = "km" -> "kms" [] u = "s" -> "s2" [] OTHER -> u
 Specified(m) == m \in {"M", "N", "E", "E0"}
